@@ -602,6 +602,13 @@ func (r *yieldRewriter) rewriteForStmt(
 	} else {
 		// can't declare variable in for-post, name conflict free
 		assert(!isDefineStmt(stmt.Post))
+		if declaresAny(body.block.List) {
+			// but the body can declare a name the post refers to: the post must
+			// keep seeing the outer variable, so the body gets its own scope
+			scoped := mkBlock(body.kind)
+			scoped.push(X.Block(body.block.List...), kindTrival)
+			body = scoped
+		}
 		body.markCombined()
 		r.rewriteStmt(stmt.Post, true, body)
 	}
@@ -614,6 +621,26 @@ func (r *yieldRewriter) rewriteForStmt(
 	children = r.combineIfNecessary(children)
 	children.pushReturn(callFor, kindFor)
 	return children
+}
+
+// declaresAny reports whether one of the statements declares a name in the
+// scope of their own block.
+func declaresAny(stmts []ast.Stmt) bool {
+	for _, stmt := range stmts {
+		switch stmt := stmt.(type) {
+		case *ast.AssignStmt:
+			if stmt.Tok == token.DEFINE {
+				return true
+			}
+		case *ast.DeclStmt:
+			return true
+		case *ast.LabeledStmt:
+			if declaresAny([]ast.Stmt{stmt.Stmt}) {
+				return true
+			}
+		}
+	}
+	return false
 }
 
 func (r *yieldRewriter) combineIfNecessary(children *block) *block {
